@@ -1,7 +1,7 @@
 (* C26 -- property theorems only.  Each closed by [exact]; Print Assumptions beneath. *)
 From Coq Require Import List ZArith Bool Arith.
 Import ListNotations.
-Require Import V.C26.Model V.C26.Proofs.
+Require Import V.C26.Model V.C26.Proofs V.C26.Pending V.C26.Reaccept V.gen.C26_Flags.
 
 (* For the plain and the TLS server, over EVERY history of service calls (any batch of accepted
    peers incl. repeated addresses, any handshake outcomes), shutdownIx / closeIx / closeAllIx /
@@ -11,25 +11,56 @@ Require Import V.C26.Model V.C26.Proofs.
    - no live socket is orphaned: an incomer whose socket is still open is referenced by a table,
      or was handed to the caller by removeIx(ca, shutclose=False).  In particular a stale entry
      that is replaced has been shut down, and a removed entry has been closed. *)
-Theorem table_functional_no_orphans : forall tls ops, table_ok (run tls ops).
+Theorem table_functional_no_orphans : forall tls cleans ops, table_ok (run tls cleans ops).
 Proof. exact ok_run. Qed.
 Print Assumptions table_functional_no_orphans.
 
+(* ... in particular for the server as it is: the clean-up flag EXTRACTED from
+   ServerTls.serviceCxes on this run (coq/gen/C26_Flags.v) *)
+Theorem table_functional_no_orphans_as_built : forall tls ops,
+  table_ok (run tls ServerTls_cleans_failed_handshake ops).
+Proof. exact (fun tls ops => ok_run tls ServerTls_cleans_failed_handshake ops). Qed.
+Print Assumptions table_functional_no_orphans_as_built.
+
+(* WITH A CLEAN-UP of failed handshakes (mode CleanRaise: del + re-raise, or CleanContinue: the
+   current `except (ssl.SSLError, OSError): ... del self.cxes[ca]; continue`), over every history
+   incl. failing handshakes, plain and TLS: every entry of the pending table is alive (its socket
+   is open), no incomer sits in two table slots, no service call ever dies on a dead pending
+   entry; and in mode CleanContinue no handshake error ever leaves serviceConnects.
+   (For NoCleanup this is FALSE: Example failed_handshake_wedges_uncleaned_server.) *)
+Theorem pending_entries_are_live : forall tls m ops, cleaning m = true ->
+  pending_live (run tls m ops) /\ ids_distinct (run tls m ops) /\ wedged (run tls m ops) = 0 /\
+  (m = CleanContinue -> hraised (run tls m ops) = 0).
+Proof. exact pending_live_run. Qed.
+Print Assumptions pending_entries_are_live.
+
+(* ... and the server AS BUILT (mode extracted from ServerTls.serviceCxes on this run) cleans up *)
+Theorem server_as_built_cleans_up : forall tls ops,
+  cleaning ServerTls_cleans_failed_handshake = true /\
+  pending_live (run tls ServerTls_cleans_failed_handshake ops) /\
+  wedged (run tls ServerTls_cleans_failed_handshake ops) = 0.
+Proof.
+  exact (fun tls ops =>
+    match pending_live_run tls ServerTls_cleans_failed_handshake ops eq_refl with
+    | conj L (conj _ (conj W _)) => conj eq_refl (conj L W) end).
+Qed.
+Print Assumptions server_as_built_cleans_up.
+
 (* conversely every peer accepted by a service call has an entry afterwards: in the table, or
-   (TLS, handshake still pending) in the pending table *)
-Theorem accepted_peers_have_entries : forall tls s cas hs ca,
+   (TLS, handshake still pending) in the pending table -- or its handshake failed in this very call *)
+Theorem accepted_peers_have_entries : forall tls cleans s cas hs ca,
   table_ok s -> In ca cas ->
-  let s' := step tls s (ServiceConnects cas hs) in
-  has_entry ca (ixes s') \/ (tls = true /\ has_entry ca (cxes s')).
+  let s' := step tls cleans s (ServiceConnects cas hs) in
+  has_entry ca (ixes s') \/ (tls = true /\ (has_entry ca (cxes s') \/ hfails s < hfails s')).
 Proof. exact accepted_have_entries. Qed.
 Print Assumptions accepted_peers_have_entries.
 
 (* plain server: accepting ca while a stale entry for ca exists raises nothing, shuts the stale
    socket down, maps ca to the new incomer (open) at the same table position and touches no
    other entry *)
-Theorem reaccept_replaces_and_shuts_stale : forall s ca old hs,
+Theorem reaccept_replaces_and_shuts_stale : forall cleans s ca old hs,
   table_ok s -> lookup ca (ixes s) = Some old ->
-  let s' := step false s (ServiceConnects [ca] hs) in
+  let s' := step false cleans s (ServiceConnects [ca] hs) in
   errors s' = errors s /\ lookup ca (ixes s') = Some (next s) /\ keys (ixes s') = keys (ixes s) /\
   sk s' old <> Open /\ sk s' (next s) = Open /\
   (forall ca2, ca2 <> ca -> lookup ca2 (ixes s') = lookup ca2 (ixes s)).
@@ -37,39 +68,70 @@ Proof. exact reaccept_plain. Qed.
 Print Assumptions reaccept_replaces_and_shuts_stale.
 
 (* TLS server (no other handshake pending): same once the new connection's handshake completes *)
-Theorem reaccept_replaces_and_shuts_stale_tls : forall s ca old,
+Theorem reaccept_replaces_and_shuts_stale_tls : forall cleans s ca old,
   table_ok s -> lookup ca (ixes s) = Some old -> cxes s = [] ->
-  let s' := step true s (ServiceConnects [ca] [true]) in
+  let s' := step true cleans s (ServiceConnects [ca] [HDone]) in
   errors s' = errors s /\ lookup ca (ixes s') = Some (next s) /\ keys (ixes s') = keys (ixes s) /\
   cxes s' = [] /\ sk s' old <> Open /\ sk s' (next s) = Open.
 Proof. exact reaccept_tls. Qed.
 Print Assumptions reaccept_replaces_and_shuts_stale_tls.
 
+(* TLS server IN GENERAL -- any number of other handshakes pending, any handshake outcomes (done,
+   want more, failed), with or without clean-up: after re-accepting ca while the table holds a stale
+   entry `old` for it, either the table still maps ca to `old` (the new connection is still
+   handshaking, or its handshake failed), or it maps ca to the new incomer and `old` has been shut
+   down.  Never: replaced and still open. *)
+Theorem reaccept_tls_any_pending : forall cleans s ca old hs,
+  table_ok s -> lookup ca (ixes s) = Some old ->
+  let s' := step true cleans s (ServiceConnects [ca] hs) in
+  lookup ca (ixes s') = Some old \/ (lookup ca (ixes s') = Some (next s) /\ sk s' old <> Open).
+Proof. exact reaccept_tls_general. Qed.
+Print Assumptions reaccept_tls_any_pending.
+
 (* removing an entry closes its socket and deletes exactly that entry *)
-Theorem remove_closes_socket : forall tls s ca i,
+Theorem remove_closes_socket : forall tls cleans s ca i,
   table_ok s -> lookup ca (ixes s) = Some i ->
-  let s' := step tls s (RemoveIx ca true) in
+  let s' := step tls cleans s (RemoveIx ca true) in
   errors s' = errors s /\ lookup ca (ixes s') = None /\ sk s' i = Closed /\
   (forall ca2, ca2 <> ca -> lookup ca2 (ixes s') = lookup ca2 (ixes s)).
 Proof. exact remove_closes. Qed.
 Print Assumptions remove_closes_socket.
 
 (* an unknown address is rejected (ValueError) without touching the table *)
-Theorem unknown_address_is_rejected : forall tls s ca,
+Theorem unknown_address_is_rejected : forall tls cleans s ca,
   lookup ca (ixes s) = None ->
-  step tls s (RemoveIx ca true) = err s /\ step tls s (CloseIx ca) = err s /\
-  step tls s (ShutdownIx ca) = err s.
+  step tls cleans s (RemoveIx ca true) = err s /\ step tls cleans s (CloseIx ca) = err s /\
+  step tls cleans s (ShutdownIx ca) = err s.
 Proof. exact unknown_address_rejected. Qed.
 Print Assumptions unknown_address_is_rejected.
 
 (* non-vacuity *)
 Example c26_nonvacuous :
-  let s := run false [ServiceConnects [7; 8; 7]%Z []; CloseIx 8%Z; ServiceConnects [8]%Z [];
+  let s := run false CleanContinue [ServiceConnects [7; 8; 7]%Z []; CloseIx 8%Z; ServiceConnects [8]%Z [];
                       RemoveIx 7%Z true; RemoveIx 9%Z true] in
   ixes s = [(8%Z, 3)] /\ sock_states s = [Shut; Closed; Closed; Open] /\ errors s = 1.
 Proof. vm_compute. repeat split; reflexivity. Qed.
 Example c26_nonvacuous_tls :
-  let s := run true [ServiceConnects [7; 8]%Z [true; false]; ServiceConnects [7]%Z [false; true];
-                     ServiceConnects [] [false]] in
+  let s := run true CleanContinue [ServiceConnects [7; 8]%Z [HDone; HWant]; ServiceConnects [7]%Z [HWant; HDone];
+                     ServiceConnects [] [HWant]] in
   ixes s = [(7%Z, 2)] /\ cxes s = [(8%Z, 1)] /\ sock_states s = [Shut; Open; Open].
+Proof. vm_compute. repeat split; reflexivity. Qed.
+
+(* THE WEDGE (behaviour of a serviceCxes WITHOUT clean-up): peer 7's handshake fails, its dead entry
+   stays in the pending table; peer 8 connects afterwards and could complete its handshake, but
+   every later service call dies on the dead entry before reaching it: 8 is never promoted, the
+   dead entry is never removed.  With del + re-raise the same history serves peer 8 and one error
+   propagates; with del + continue nothing propagates, and a batch [7 fails; 8 done] accepted in
+   ONE call serves 8 in that same call. *)
+Example failed_handshake_wedges_uncleaned_server :
+  let h := [ServiceConnects [7]%Z [HFail]; ServiceConnects [8]%Z [HDone]; ServiceConnects [] [HDone];
+            ServiceConnects [] [HDone]] in
+  (let s := run true NoCleanup h in
+   ixes s = [] /\ cxes s = [(7%Z, 0); (8%Z, 1)] /\ sock_states s = [Closed; Open] /\ wedged s = 3) /\
+  (let s := run true CleanRaise h in
+   ixes s = [(8%Z, 1)] /\ cxes s = [] /\ sock_states s = [Closed; Open] /\ wedged s = 0 /\ hraised s = 1) /\
+  (let s := run true CleanContinue h in
+   ixes s = [(8%Z, 1)] /\ cxes s = [] /\ sock_states s = [Closed; Open] /\ wedged s = 0 /\ hraised s = 0) /\
+  (ixes (run true CleanContinue [ServiceConnects [7; 8]%Z [HFail; HDone]]) = [(8%Z, 1)] /\
+   ixes (run true CleanRaise [ServiceConnects [7; 8]%Z [HFail; HDone]]) = []).
 Proof. vm_compute. repeat split; reflexivity. Qed.
